@@ -164,6 +164,17 @@ def run(tier: str, seed: int) -> int:
     chk.model_check("MC_SigmaStr", "MC_SigmaStr.cfg" if tier == "quick" else "MC_SigmaStr_thorough.cfg")
     cfgpath = chk.path("c05_cfg.json")
     cases = chk.generate("Gen_C05", shards=[1, 2, 3, 4], env={"VERIF_OUT2": cfgpath})
+    # plus the texts the repository's own tests build Sigma strings from
+    from ..harvest import harvest
+
+    hv = sorted({h["text"] for h in harvest({"string"})["string"] if 0 < len(h["text"]) <= 24})
+    hpath = chk.path("c05_harvest.ndjson")
+    with open(hpath, "w") as f:
+        for t in hv:
+            f.write(json.dumps({"src": cps(t)}) + "\n")
+    hcases = chk.generate("Gen_C05", shards=[5], env={"VERIF_OUT2": cfgpath, "VERIF_IN": hpath}) if hv else []
+    chk.coverage["harvested_from_repository_tests"] = len(hcases)
+    cases += hcases
     for c in cases:
         c["_cfg"] = cfgpath
     obs = drive("harness.props.c05", "drive_case", cases)
